@@ -1,6 +1,6 @@
 """C16 -- Checksums recorded in metadata are the true digests of the right files."""
 from pyvc import verify
-from .common import ctx, std, contract_samples
+from .common import ctx, std, contract_samples, history_samples
 
 
 def check(run):
@@ -33,6 +33,7 @@ def check(run):
                        "REPRODUCED('an absolute checksum path passes Checksums.validate()')\n")
     contract_samples(run, c, ["fn:treeinfo.compute_checksum", "meth:treeinfo.Checksums.add", "meth:images.Image.add_checksum",
                               "de:treeinfo.Checksums:1", "de:treeinfo.Checksums:2", "ser:treeinfo.Checksums:2"])
+    history_samples(run, c, ["fn:treeinfo.compute_checksum"])
     run.assume("A3: hashlib.new(t).update/hexdigest digest the concatenation of all updates; read(n) returns the next k <= n bytes, k >= 1 unless at EOF")
     run.assume("A4: os.path.normpath/join as documented (uninterpreted in the proof; cross-checked natively in the bounded runs)")
     run.note("the digest loop is verified by an inductive invariant (fed == content[0:pos]): every file size and every chunking is covered; "
